@@ -701,3 +701,124 @@ func plainReader(fn *ssa.Function) bool {
 	}
 	return true
 }
+
+// ---------- an amount handed to a function that consumes it is not used afterwards ----------
+
+// paramOf: v denotes (the number pointed to by) a *big.Int parameter of fn: the parameter, a
+// local that only ever holds it, or - in a closure - a captured variable that only ever holds
+// a parameter of the enclosing function.
+func paramOf(v ssa.Value, fn *ssa.Function) (*ssa.Function, *ssa.Parameter) {
+	v = resolveLocal(v)
+	if p, ok := v.(*ssa.Parameter); ok {
+		return p.Parent(), p
+	}
+	if ld, ok := v.(*ssa.UnOp); ok && ld.Op == token.MUL {
+		if st := singleStoreEverywhere(ld.X); st != nil {
+			if p, ok := resolveLocal(st.Val).(*ssa.Parameter); ok {
+				return p.Parent(), p
+			}
+		}
+	}
+	return nil, nil
+}
+
+// ConsumedArgumentsDead: a function "consumes" a *big.Int parameter when it rewrites it in
+// place (directly, through a local or captured alias, or by handing it to a function that
+// consumes it). Whoever passes an amount to a consuming position must not use that amount
+// afterwards: it no longer has the value it had.
+func (c *Ctx) ConsumedArgumentsDead(ob *core.Obligation, rel string) {
+	var fns []*ssa.Function
+	for _, f := range c.P.ModuleFunctions() {
+		if relOfFn(f) == rel {
+			fns = append(fns, f)
+		}
+	}
+	consumes := map[*ssa.Parameter]token.Pos{}
+	for changed := true; changed; {
+		changed = false
+		for _, f := range fns {
+			for _, ci := range core.Calls(f) {
+				if tn, m := core.BigMethod(ci.Common()); tn != "" && !bigReadersOnly[m] {
+					args := core.CallArgs(ci.Common())
+					if zeroArgs(m, args) {
+						continue
+					}
+					if _, p := paramOf(args[0], f); p != nil && isBigPtrStd(p.Type()) {
+						if _, ok := consumes[p]; !ok {
+							consumes[p] = ci.Pos()
+							changed = true
+						}
+					}
+					continue
+				}
+				for _, g := range c.calleesOf(f, ci) {
+					for ai, a := range ci.Common().Args {
+						if ai >= len(g.Params) {
+							continue
+						}
+						if _, isC := consumes[g.Params[ai]]; !isC {
+							continue
+						}
+						if _, p := paramOf(a, f); p != nil {
+							if _, ok := consumes[p]; !ok {
+								consumes[p] = ci.Pos()
+								changed = true
+							}
+						}
+					}
+				}
+			}
+		}
+	}
+	n := 0
+	for _, f := range fns {
+		for _, ci := range core.Calls(f) {
+			call, ok := ci.(*ssa.Call)
+			if !ok {
+				continue
+			}
+			for _, g := range c.calleesOf(f, ci) {
+				for ai, a := range call.Call.Args {
+					if ai >= len(g.Params) {
+						continue
+					}
+					if _, isC := consumes[g.Params[ai]]; !isC {
+						continue
+					}
+					n++
+					c.Touch(f)
+					key := "consumed:" + core.SSAName(f) + ":" + g.Name()
+					// a number the caller created itself and lends as an in/out accumulator is its
+					// own business
+					if c.freshNumber(a, f, 0, map[ssa.Value]bool{}) {
+						ob.Pass(key, c.P.Pos(call.Pos()), "the caller lends a number it created itself (an accumulator)")
+						continue
+					}
+					k := cellKey(a)
+					var later ssa.Instruction
+					for _, b := range f.Blocks {
+						for _, in := range b.Instrs {
+							if in == ssa.Instruction(call) || !instrCanPrecede(call, in) {
+								continue
+							}
+							if _, isDbg := in.(*ssa.DebugRef); isDbg {
+								continue
+							}
+							for _, op := range in.Operands(nil) {
+								if *op != nil && isBigPtrStd((*op).Type()) && cellKey(*op) == k {
+									later = in
+								}
+							}
+						}
+					}
+					if later != nil {
+						ob.Fail(key, c.P.Pos(later.Pos()), fmt.Sprintf("the amount handed to %s is rewritten in place by it (at %s) and is used again here: it no longer has the value it had when it was handed over", g.Name(), c.P.Pos(consumes[g.Params[ai]])))
+					} else {
+						ob.Pass(key, c.P.Pos(call.Pos()), "the amount is not used after being handed to a function that rewrites it")
+					}
+				}
+			}
+		}
+	}
+	ob.Pass("consumed:scanned", "-", fmt.Sprintf("%d parameter(s) rewritten in place by their function, %d hand-over(s) examined", len(consumes), n))
+}
